@@ -128,19 +128,22 @@ fn gen_files() -> Vec<FileSpec> {
     let nd = 1 + sym::choose("ndist", sym::bound(1, 2));
     let mut i = 0;
     while i < nd {
-        let mut name = any_name("dn", false, sym::choose("sub", 2) == 1);
+        // the first distfile varies in every dimension, further ones only in their name
+        let first = i == 0;
+        let mut name = any_name("dn", false, first && sym::choose("sub", 2) == 1);
         name.push(b'0' + i as u8); // distinct names
-        let a0 = sym::choose("alg", 6);
-        let mut sums = vec![(a0, sym::any_bytes("h", "hex:30-39,61-66", 1, 2))];
-        if sym::choose("two-sums", 2) == 1 {
+        let a0 = if first { sym::choose("alg", 6) } else { 3 };
+        let mut sums = vec![(a0, if first { sym::any_bytes("h", "hex:30-39,61-66", 1, 2) } else { b"00".to_vec() })];
+        if first && sym::choose("two-sums", 2) == 1 {
             sums.push(((a0 + 1) % 6, b"ab".to_vec()));
         }
-        files.push(FileSpec { name, sums, size: Some(any_size("size")), patch: false });
+        let size = if first { any_size("size") } else { (10, b"10".to_vec()) };
+        files.push(FileSpec { name, sums, size: Some(size), patch: false });
         i += 1;
     }
     if sym::choose("patch", 2) == 1 {
         let name = any_name("pn", true, false);
-        files.push(FileSpec { name, sums: vec![(sym::choose("palg", 6), b"0f".to_vec())], size: None, patch: true });
+        files.push(FileSpec { name, sums: vec![(sym::choose("palg", 2) * 5, b"0f".to_vec())], size: None, patch: true });
     }
     files
 }
